@@ -114,6 +114,7 @@ pub fn gen_config(prop: &str, tier: Tier, rng: &mut Rng) -> Config {
         max_kills: 2,
         system_exit: false,
         script_errors: true,
+        burst: 0,
     };
     let lst = |rng: &mut Rng, uds_w: u64| -> Vec<Lst> {
         let n = if rng.chance(1, 3) { 2 } else { 1 };
@@ -213,6 +214,14 @@ pub fn gen_config(prop: &str, tier: Tier, rng: &mut Rng) -> Config {
             c.max_conns = rng.range(4, 14) as usize;
         }
         _ => {}
+    }
+    // long accept queues / long worker queues (more than any batch size someone might pick): a
+    // burst of 40 or 70 clients on one listener with a limit that does not get in the way
+    if matches!(prop, "C01" | "C03" | "C05" | "C07") && rng.chance(1, 25) {
+        c.burst = *rng.pick(&[40usize, 70]);
+        c.limit = 100;
+        c.max_conns = c.burst + 12;
+        c.workers = c.workers.min(2);
     }
     c
 }
@@ -416,6 +425,32 @@ pub fn after_accept_step(sh: &Rc<Shared>, acc: &SteppedAccept, paused_before: bo
                         format!("connection c{c} was accepted but not handed to any worker although {} worker handle(s) remain", handles.len()),
                     ));
                 }
+            }
+        }
+    }
+    if prop == "C05" && acc.alive() {
+        // the loop wakes up no later than the earliest back-off deadline of any listener
+        let rem = acc.socket_backoff_remaining();
+        if let Some((tok, min_rem)) = rem.iter().min_by_key(|(_, d)| *d).copied() {
+            let l = sh.token_of_listener.borrow().iter().position(|t| *t == tok).unwrap_or(0);
+            let late = match acc.timeout() {
+                None => true,
+                Some(t) => t > min_rem + std::time::Duration::from_millis(1),
+            };
+            if rem.len() >= 2 {
+                sh.ctx(|ctx| ctx.bump("probe.two_listeners_backing_off"));
+            }
+            if late {
+                sh.violate(
+                    Violation::new(
+                        "backoff-deadline-missed",
+                        format!(
+                            "listener l{l} is to be re-registered in {min_rem:?} but the accept loop's poll timeout is {:?}: it sleeps past the end of that back-off",
+                            acc.timeout()
+                        ),
+                    )
+                    .fact("listeners_backing_off", rem.len()),
+                );
             }
         }
     }
@@ -1199,7 +1234,7 @@ pub fn required_probes(prop: &str, tier: Tier) -> Vec<&'static str> {
         "C03" => vec!["probe.quiescent_with_backlog", "probe.quiescence_judged"],
         "C01" => vec!["probe.queued_conn_released_on_shutdown", "probe.race_window_progress"],
         "C04" => vec!["probe.rr_window_checked", "probe.rr_window_from_quiescence", "probe.bitset_runs", "probe.rr_cursor_checked"],
-        "C05" => vec!["probe.backoff_armed", "probe.per_connection_error_handled", "probe.commands_acknowledged", "cmd.pause", "cmd.resume"],
+        "C05" => vec!["probe.backoff_armed", "probe.per_connection_error_handled", "probe.commands_acknowledged", "cmd.pause", "cmd.resume", "probe.two_listeners_backing_off"],
         "C06" => vec!["probe.stop_completed", "probe.graceful_stop_with_connections", "probe.forced_stop_with_connections", "probe.forced_stop_judged", "probe.second_stop", "probe.stop_future_dropped", "probe.stop_after_server_end", "probe.stop_window_progress"],
         "C07" => vec!["probe.call_after_ready_round", "probe.service_restarted", "probe.queue_order_checked"],
         "C08" => vec!["probe.send_failed_discovered", "probe.replacement_in_rotation", "probe.replacement_served"],
